@@ -103,6 +103,24 @@ mod string_arithmetic {
 
     use super::Number::{self, *};
 
+    /// `checked_rem` also refuses `MIN % -1` (the matching quotient overflows), although that
+    /// remainder is 0 and the interpreter computes it; only a zero divisor has no remainder.
+    trait ExactRem: Sized {
+        fn exact_rem(self, rhs: Self) -> Option<Self>;
+    }
+
+    macro_rules! exact_rem_impl {
+        ($($ty:ty),*) => {$(
+            impl ExactRem for $ty {
+                fn exact_rem(self, rhs: Self) -> Option<Self> {
+                    (rhs != 0).then(|| self.wrapping_rem(rhs))
+                }
+            }
+        )*};
+    }
+
+    exact_rem_impl!(i32, i128, u8);
+
     macro_rules! parse {
         ($val:expr, $ty:ty) => {
             <std::result::Result<_, _> as anyhow::Context<_, _>>::with_context(
@@ -305,7 +323,7 @@ mod string_arithmetic {
     number_impl!(bitshift checked_shl as Shl, shl);
     number_impl!(bitshift checked_shr as Shr, shr);
     number_impl!(fpNonzero checked_div as Div, div);
-    number_impl!(fpNonzero checked_rem as Rem, rem);
+    number_impl!(fpNonzero exact_rem as Rem, rem);
     number_impl!(infallible bitand as BitAnd, bitand);
     number_impl!(infallible bitor as BitOr, bitor);
     number_impl!(infallible bitxor as BitXor, bitxor);
